@@ -209,7 +209,16 @@ func c01Layout(c *Ctx, p *Prog) {
 							if ss, ok := src.(*ssa.Slice); ok {
 								if g, ok := ss.X.(*ssa.Global); ok {
 									p.prov()
-									if len(p.pi.writes[Loc{Kind: 'g', V: g}]) == 0 {
+									// zeros may only land behind the data: offset >= 3+len(data)
+									bd := p.NewBounds()
+									okOff := false
+									if cc, isC := x.(*ssa.Call); isC && sl.Low != nil {
+										okOff, _ = bd.Prove(mk, cc, func(s *scope, pr *proof) []Cons {
+											dl, _ := s.lenLin(data, pr)
+											return []Cons{ge(s.lin(sl.Low, pr), dl.Add(linConst(3)))}
+										})
+									}
+									if len(p.pi.writes[Loc{Kind: 'g', V: g}]) == 0 && okOff {
 										break
 									}
 								}
@@ -389,7 +398,45 @@ func c01Surfacing(c *Ctx, p *Prog, rule string) {
 	}
 	needs := []*need{{"Decode succeeded (err == nil)", false}, {"decoded length >= 3", false}, {"payload length <= len(pkt)-3", false}, {"packet type == 0 (payload)", false}}
 	var unexpected []string
-	lc := p.newLin()
+	var decLenV ssa.Value
+	for _, r := range *rs.dec.Referrers() {
+		if ex, ok := r.(*ssa.Extract); ok && ex.Index == 0 {
+			decLenV = ex
+		}
+	}
+	bd := p.NewBounds()
+	if decLenV != nil {
+		// the two numeric guards, proved from everything known at the write
+		ok1, _ := bd.Prove(rp, W, func(s *scope, pr *proof) []Cons { return []Cons{geC(s.lin(decLenV, pr), 3)} })
+		ok2, _ := bd.Prove(rp, W, func(s *scope, pr *proof) []Cons {
+			return []Cons{le(s.lin(rs.length, pr).Add(linConst(3)), s.lin(decLenV, pr))}
+		})
+		needs[1].ok, needs[2].ok = ok1, ok2
+	}
+	if ff.SucceededCalls(W.Block())[rs.dec] {
+		needs[0].ok = true
+	}
+	// H: what a deliverable payload packet satisfies; a condition on the way to
+	// the write is harmless iff H implies it
+	impliedByH := func(f Fact) bool {
+		bo, ok := f.Cond.(*ssa.BinOp)
+		if !ok || decLenV == nil || !isIntType(bo.X.Type()) {
+			return false
+		}
+		op := bo.Op
+		if f.Pol { // hypothesis is the NEGATION of the fact
+			op = negOp(op)
+		}
+		if op == token.ILLEGAL {
+			return false
+		}
+		okR, _ := bd.RefuteWith(rp, rp.Blocks[0], func(s *scope, pr *proof) {
+			d, l := s.lin(decLenV, pr), s.lin(rs.length, pr)
+			pr.add(geC(d, 3), leC(d, 1430), geC(l, 1), le(l.Add(linConst(3)), d))
+			s.cmpCons(pr, op, bo.X, bo.Y, "c01:neg")
+		})
+		return okR
+	}
 	for _, f := range fs {
 		switch {
 		case func() bool { x, isNil, ok := FactNilCmp(f); cc, _ := callOf(unspill(x)); return ok && isNil && cc == rs.dec }():
@@ -403,6 +450,9 @@ func c01Surfacing(c *Ctx, p *Prog, rule string) {
 			return cc == rs.dec
 		}():
 			// not ErrAgain: implied by err == nil; fine
+		case func() bool { sib, wantNil, kind := siblingTest(f); return sib != nil && kind == "nil" && wantNil && isErrorType(sib.Type()) }():
+			// "the merged error of the parsing steps is nil": its content is the conditions of the
+			// individual steps, which are judged one by one
 		default:
 			b, isBin := f.Cond.(*ssa.BinOp)
 			if !isBin {
@@ -413,27 +463,13 @@ func c01Surfacing(c *Ctx, p *Prog, rule string) {
 			if !f.Pol {
 				op = negOp(op)
 			}
-			x, y := lc.Of(b.X), lc.Of(b.Y)
-			decLen := Lin{}
-			for _, r := range *rs.dec.Referrers() {
-				if ex, ok := r.(*ssa.Extract); ok && ex.Index == 0 {
-					decLen = lc.Of(ex)
-				}
-			}
-			plen := lc.Of(rs.length)
-			pktLen, _ := lenOfSliceExpr(lc, rs.pkt)
 			switch {
-			case op == token.GEQ && x.Equal(decLen) && y.Equal(linConst(3)):
-				needs[1].ok = true
-			case (op == token.LEQ && x.Equal(plen) && y.Equal(pktLen.Sub(linConst(3)))) || (op == token.LEQ && x.Equal(plen) && lenMinus3(lc, b.Y, rs.pkt)):
-				needs[2].ok = true
-			case op == token.EQL && unspill(b.X) == rs.typ && y.Equal(linConst(0)):
+			case op == token.EQL && unspill(b.X) == rs.typ && func() bool { k, ok := intConst(b.Y); return ok && k == 0 }():
 				needs[3].ok = true
-			case op == token.GTR && x.Equal(plen) && y.Equal(linConst(0)):
-				// payloadLen > 0: an empty payload has nothing to deliver
-			case op == token.NEQ && x.Equal(plen) && y.Equal(linConst(0)):
-			case op == token.GTR && isBufLenOf(p, b.X, tO4Conn, "receiveBuffer") && y.Equal(linConst(0)):
+			case op == token.GTR && isBufLenOf(p, b.X, tO4Conn, "receiveBuffer") && func() bool { k, ok := intConst(b.Y); return ok && k == 0 }():
 				// loop condition: input remains
+			case impliedByH(f):
+				// a consequence of "the frame holds a non-empty payload packet"
 			default:
 				unexpected = append(unexpected, p.FactString(f))
 			}
@@ -1032,7 +1068,16 @@ func c01Loops(c *Ctx, p *Prog) {
 					}
 					for i, pr := range s.Preds {
 						if pr == b {
-							if _, isMI := unspill(ph.Edges[i]).(*ssa.MakeInterface); isMI {
+							ev := ph.Edges[i]
+							if _, isMI := unspill(ev).(*ssa.MakeInterface); isMI {
+								okErr = true
+							}
+							// the value leaving on this edge is tested non-nil on the way (a merged
+							// error of several validation steps)
+							if hasFact(fs, func(f Fact) bool {
+								x, isNil, ok := FactNilCmp(f)
+								return ok && !isNil && (x == ev || unspill(x) == unspill(ev))
+							}) || rff.ProvablyNonNil(ev, b, 0) {
 								okErr = true
 							}
 						}
